@@ -5,7 +5,7 @@ set -u
 VERIF_DIR="$(cd "$(dirname "$0")/.." && pwd)"
 export CARGO_NET_OFFLINE=true
 mkdir -p "$VERIF_DIR/sim/target/cli"
-if ! cargo build --offline -q --manifest-path /repo/Cargo.toml --bin lace --target-dir "$VERIF_DIR/sim/target/cli" 2>"$VERIF_DIR/sim/target/cli-build.log"; then
+if ! CARGO_PROFILE_DEV_DEBUG=false cargo build --offline -q --manifest-path /repo/Cargo.toml --bin lace --target-dir "$VERIF_DIR/sim/target/cli" 2>"$VERIF_DIR/sim/target/cli-build.log"; then
     echo "harness error: build of the lace binary failed" >&2
     tail -40 "$VERIF_DIR/sim/target/cli-build.log" >&2
     exit 2
